@@ -173,7 +173,10 @@ def knobs_text(case):
     # inventory).  Which input does this cannot be told beforehand (about 1 case in 4000), so every generated input damps
     # the Newton step with the documented options -step_size 10 / -pe_step_size 5 (what the engine's own first retry
     # uses).  `knobs_default_step_size` in a case keeps the defaults (used only by known-finding replays).
-    if not case.get("knobs_default_step_size"):
+    # `knobs_step_size: [s, p]` chooses other values (C02 uses it for its second run of a case, see c02.check_case).
+    if case.get("knobs_step_size"):
+        txt += "\n -step_size %s\n -pe_step_size %s" % tuple(fmt(float(v)) for v in case["knobs_step_size"])
+    elif not case.get("knobs_default_step_size"):
         txt += "\n -step_size 10\n -pe_step_size 5"
     return txt
 
@@ -587,8 +590,14 @@ def _neg_mix_ok(sols, parts):
             s = sols[ref - 1]
             for e, c in s["comps"]:
                 pos[e] = pos.get(e, 0.0) + f * c * s["water"]
+    # Known finding on the pinned tree (C02, replays/C02/known/mix-negative-fraction-intensive-weights-nan.json): for a
+    # negative fraction step.cpp add_mix() zeroes `intensive` but hands `intensive_water` = f*w / (sum of f*w) to
+    # add_solution, so temperature, pH, pe ... of the mixture are weighted with -f*w/W: 1.0 x 0.237 kg - 0.15 x 1 kg gave
+    # -18 C, pH -3.6 and a saved solution full of NaN with 0 errors.  Negative fractions are kept where the water they
+    # remove is < 30 % of the water of the positive members (weights stay within [-0.43, 0]).
+    wpos = sum(f * sols[ref - 1]["water"] for ref, f in parts if f > 0)
     return all(v > 0.2 * pos.get(k, 0.0) for k, v in tot.items() if k != "_w") and tot["_w"] > 0.05 and \
-        all(k in pos for k in tot if k != "_w")
+        tot["_w"] >= 0.7 * wpos and all(k in pos for k in tot if k != "_w")
 
 
 @st.composite
